@@ -97,7 +97,7 @@ def run(plan, world, main, *, extra=None):
         detail = _task_stacks(world)
     except L.StepLimit as exc:
         status = "steplimit"
-        detail = {"msg": str(exc), "stacks": _task_stacks(world)}
+        detail = {"msg": str(exc), "spin": world.loop.spin_trace[-40:], "stacks": _task_stacks(world)}
     except L.HarnessError as exc:
         status = "harness_error"
         detail = repr(exc)
